@@ -7,6 +7,7 @@ CONSTANTS
   QSize = 3
   MaxNow = 40
   KF_C10_LostHandoff = FALSE
+  KF_Overtake = FALSE
   TtlPeek = FALSE
   Driver = TRUE
   KeepHist = TRUE
